@@ -116,6 +116,20 @@ def mainChecks (o : Opts) (t : Val) (p : Proj) : Out :=
 /-- the structural check an included model goes through on its own, before it is merged into the including one -/
 def includedChecks (o : Opts) (t : Val) : Validate.VOut := structuralStage (includeOpts o) t
 
+/-- a load whose main model includes projects: each included model goes through its own structural check first (under
+`includeOpts o`, in the order of the `include` list), then the merged tree and the project through the main checks.
+`incs` are the included models as `loadYamlModel` validates them, `t` the merge result of the including model. -/
+def incFail (o : Opts) (i : Val) : Option Out :=
+  match includedChecks o i with
+  | .ok => none
+  | .err c => some (Out.structural c)
+  | .panic s => some (Out.panic s)
+
+def loadWithIncludes (o : Opts) (incs : List Val) (t : Val) (p : Proj) : Out :=
+  match incs.findSome? (incFail o) with
+  | some out => out
+  | none => mainChecks o t p
+
 /-! ### the same composition on outcome *classes* (what the correspondence stream observes on whole loads) -/
 
 /-- first failure of the two stages: `v` = class of the structural stage alone, `c` = of the consistency stage alone
@@ -124,5 +138,11 @@ def combine (o : Opts) (v c : String) : String :=
   if !o.skipValidation && v != "ok" then v
   else if !o.skipConsistencyCheck && c != "ok" then c
   else "ok"
+
+/-- … with included projects: `vInc` = classes of the structural stage of each included model alone -/
+def combineIncl (o : Opts) (vInc : List String) (v c : String) : String :=
+  match vInc.find? (fun x => !(includeOpts o).skipValidation && x != "ok") with
+  | some x => x
+  | none => combine o v c
 
 end CV.Consistency.Glue
